@@ -5,7 +5,7 @@ import RigoProofs.C14Window
 import RigoProofs.C10Tm
 open Std
 
-namespace Rigo.C14
+namespace Rigo.C14L
 
 open Delegatee
 
@@ -227,4 +227,4 @@ theorem signer_untouched (s : St) (H : Int) (rl : KMap Delegatee) (v : VoteIn) (
         have := rewardTo_frame _ _ _ _ _ hr
         exact ⟨this.1, this.2.1, this.2.2.1, this.2.2.2.1⟩
 
-end Rigo.C14
+end Rigo.C14L
